@@ -221,6 +221,10 @@ func trustedBase(w *World, o *Options) []string {
 	}
 	sort.Strings(ks)
 	for _, k := range ks {
+		if strings.HasPrefix(k, "<recursion") {
+			out = append(out, "assumed, not proved: "+strings.Trim(k, "<>"))
+			continue
+		}
 		out = append(out, "assumed contract (dependency, not verified): "+k)
 	}
 	ks = nil
